@@ -361,7 +361,10 @@ def _timed(fn, *a, **kw):
 
 def _exc_text(e):
     """what prettify_message shows for a failing view: traceback cut below the caller of view.prettify"""
-    tb = e.__traceback__.tb_next if e.__traceback__ is not None else None
+    tb = e.__traceback__
+    while tb is not None and tb.tb_frame.f_code.co_filename == __file__ \
+            and tb.tb_frame.f_code.co_name in ("_call_prettify", "_timed"):       # the caller-side frames of this harness
+        tb = tb.tb_next
     return "".join(traceback.format_exception(type(e), value=e, tb=tb))
 
 
